@@ -31,7 +31,7 @@ func docHasNonASCII(doc string) bool { return !isASCII(doc) }
 
 func init() {
 	register("C06", func(c *engine.Ctx) {
-		c.Rule = "one string field per program: {minLength,maxLength,pattern} presence x position (required/optional/nullable/definition/nested/optional-with-a-valid-default) x strings of length limit-1, limit, limit+1 in ASCII and in 2-, 3-, 4-byte characters x matching / non-matching text for each pattern form; plus absent and null; plus pattern fidelity: 15 patterns with characters that are awkward in generated source (literal line feed, tab, CR, quotes, backslash escapes, %, non-ASCII) x 19 documents x 3 positions, judged by regexp.MatchString on the schema's own pattern. The reference verdict is judged on ASCII documents (scope F06; byte counting is known finding K1), model = implementation on all. Distinct = distinct (labels, reference verdict, real verdict, document shape)."
+		c.Rule = "one string field per program: {minLength,maxLength,pattern} presence x position (required/optional/nullable/definition/nested/optional-with-a-valid-default) x strings of length limit-1, limit, limit+1 in ASCII and in 2-, 3-, 4-byte characters x matching / non-matching text for each pattern form; plus absent and null; plus pattern fidelity: 47 patterns — characters that are awkward in generated source (literal line feed, tab, CR, quotes, backtick, backslash escapes and escaped backslashes, %, non-ASCII) and 20 patterns that merely look trivial (^.*$, .*, .+, ^$, (?s)^.*$, …) — x 39 documents (incl. line feeds at the start, in the middle and at the end) x 3 positions, judged by regexp.MatchString on the schema's own pattern. The reference verdict is judged on ASCII documents (scope F06; byte counting is known finding K1), model = implementation on all. Distinct = distinct (labels, reference verdict, real verdict, document shape)."
 		c.Proofs([]string{"GJS.Props.C06"}, []string{
 			"GJS.Props.C06.ascii_bytes_eq_length", "GJS.Props.C06.string_check_exact_ascii", "GJS.Props.C06.string_check_exact_pattern_only",
 			"GJS.Props.C06.absent_or_null_unchecked", "GJS.Props.C06.present_checked", "GJS.Props.C06.KF_bytes_counterexample", "GJS.Props.C06.carriage_return_pattern_exact",
